@@ -68,7 +68,7 @@ theorem hier_server_no_crash (cfg : Cfg) (R : Registry) (hR : regWf R)
 
 def exTy : Ty := .obj "f".toList "tns".toList none
   [("d".toList, .prim .date {}), ("m".toList, .prim (.integer .i8 {}) { maxOccurs := some 3 })] {}
-def exCfg : Cfg := ⟨.yaml, .none, true, .dict, false, false, true⟩
+def exCfg : Cfg := ⟨.yaml, .none, true, .dict, false, false, true, [], []⟩
 
 example : (decode facts08 facts02 exCfg [] exTy (.map [(.str "d".toList, .int 5)])).isFault = true := by decide +kernel
 example : (decode facts08 facts02 exCfg [] exTy (.map [(.str "m".toList, .int 5)])).isFault = true := by decide +kernel
